@@ -32,6 +32,10 @@ var (
 	// Use errors.Is to check if returned error is ErrBasicFormatDisabled.
 	ErrBasicFormatDisabled = errors.New("basic format disabled")
 
+	// ErrInvalidMonthOrDay is wrapped and returned by Date.UnmarshalBinary if passed input has month or day which does not exist.
+	// Use errors.Is to check if returned error is ErrInvalidMonthOrDay.
+	ErrInvalidMonthOrDay = errors.New("invalid month or day")
+
 	// ErrInvalidFromOrTo is wrapped and returned by FilterFromTo if passed from or to is invalid.
 	// Use errors.Is to check if returned error is ErrInvalidFromOrTo.
 	ErrInvalidFromOrTo = errors.New("invalid from or to")
